@@ -49,7 +49,7 @@ func (c *StorageChanges) Changes() map[uint64][][]byte {
 type StorageKey struct {
 	slot          *uint256.Int
 	offset        uint8
-	children      map[uint256.Int]map[uint8]*StorageKey
+	children      map[uint256.Int]map[uint8]map[common.Hash]*StorageKey
 	childrenIndex map[string]*StorageKey
 	changes       *StorageChanges
 	data          []byte
@@ -66,7 +66,7 @@ func NewBranchKey(slot *uint256.Int, offset uint8, typeId common.Hash, data []by
 		offset:        offset,
 		data:          data,
 		typeId:        typeId,
-		children:      make(map[uint256.Int]map[uint8]*StorageKey),
+		children:      make(map[uint256.Int]map[uint8]map[common.Hash]*StorageKey),
 		childrenIndex: make(map[string]*StorageKey),
 		nodeType:      BranchNode,
 	}
@@ -78,7 +78,7 @@ func NewBranchKey(slot *uint256.Int, offset uint8, typeId common.Hash, data []by
 // The data field for root key is the balance of the account.
 func NewRootKey() *StorageKey {
 	return &StorageKey{
-		children:      make(map[uint256.Int]map[uint8]*StorageKey),
+		children:      make(map[uint256.Int]map[uint8]map[common.Hash]*StorageKey),
 		childrenIndex: make(map[string]*StorageKey),
 		nodeType:      RootNode,
 	}
@@ -132,21 +132,26 @@ func (k *StorageKey) Offset() uint8 {
 func (k *StorageKey) AddChild(child *StorageKey) (*StorageKey, error) {
 	slot, offset := child.Slot(), child.Offset()
 	if k.children[*slot] == nil {
-		k.children[*slot] = make(map[uint8]*StorageKey)
+		k.children[*slot] = make(map[uint8]map[common.Hash]*StorageKey)
+	}
+	if k.children[*slot][offset] == nil {
+		k.children[*slot][offset] = make(map[common.Hash]*StorageKey)
+	}
+
+	// the first registration of a (slot, offset, type) wins; a later one - also under
+	// another name - refers to that same record, as the flat index does
+	kept, ok := k.children[*slot][offset][child.typeId]
+	if !ok {
+		kept = child
+		k.children[*slot][offset][child.typeId] = child
 	}
 
 	storageKey := string(child.data)
 	if k.childrenIndex[storageKey] == nil {
-		k.childrenIndex[storageKey] = child
+		k.childrenIndex[storageKey] = kept
 	}
 
-	existing, ok := k.children[*slot][offset]
-	if !ok {
-		k.children[*slot][offset] = child
-		return child, nil
-	}
-
-	return existing, nil
+	return kept, nil
 }
 
 func (k *StorageKey) Changes() *StorageChanges {
